@@ -47,16 +47,55 @@ func TestVfC01Listeners(t *testing.T) {
 	}
 	defer up.Close()
 	pip := block + "10"
-	cfg := &Config{Servers: StdServers(pip, AllListenerKinds, ""), Upstreams: []UpstreamCfg{{Tag: "up", Addr: up.Addr()}}, Rules: []Rule{{Forward: "up"}}}
+	metricsAddr := pip + ":9153"
+	cfg := &Config{Servers: StdServers(pip, AllListenerKinds, ""), Upstreams: []UpstreamCfg{{Tag: "up", Addr: up.Addr()}}, Rules: []Rule{{Forward: "up"}},
+		Extra: map[string]any{"metrics": map[string]any{"addr": metricsAddr}}}
 	p, err := StartProxy(cfg.YAML(), nil, ProxyOpts{})
 	if err != nil {
 		t.Fatal(err)
 	}
 	defer p.Cleanup()
 	insecure := &tls.Config{InsecureSkipVerify: true}
+	// Resource baseline for the leak oracle at the end: goroutines and descriptors of the proxy (its own metrics
+	// endpoint) after every listener has served a few valid queries (worker pools and upstream sockets exist by then).
+	{
+		a := NewAsker(pip, "")
+		for round := 0; round < 3; round++ {
+			for i, k := range AllListenerKinds {
+				a.Ask(k, Query(uint16(60000+i), vfkit.Name{[]byte("warm"), []byte("ok"), []byte("test")}, 1, 1, false), 2*time.Second, 0)
+			}
+		}
+		a.Close()
+		time.Sleep(300 * time.Millisecond)
+	}
+	baseG, baseF, haveBase := ProcStats(metricsAddr)
+	nCases := 0
+	defer func() {
+		if t.Failed() || !haveBase || p.Exited() {
+			return
+		}
+		// Every client of this test has closed its connections. Within 45 s (QUIC idle and handshake time-outs, worker
+		// pool idle times) the proxy must be back near its baseline: anything that stays is held per hostile input.
+		var g, f int
+		deadline := time.Now().Add(45 * time.Second)
+		for {
+			var ok bool
+			g, f, ok = ProcStats(metricsAddr)
+			if ok && g <= baseG+12 && f <= baseF+6 {
+				st.Class("leak-oracle-evaluated", 1)
+				return
+			}
+			if time.Now().After(deadline) {
+				break
+			}
+			time.Sleep(300 * time.Millisecond)
+		}
+		t.Errorf("resource leak: after %d hostile inputs and 45 s of quiet the proxy holds %d goroutines (baseline %d) and %d descriptors (baseline %d)\n%s", nCases, g, baseG, f, baseF, tail(p.Stderr(), 1500))
+	}()
 	id := uint16(0)
 	rapid.Check(t, func(t *rapid.T) {
 		id += 3
+		nCases++
 		kind := rapid.SampledFrom(AllListenerKinds).Draw(t, "listener")
 		hostile, class := vfkit.GenHostile(t)
 		a := NewAsker(pip, "")
